@@ -42,6 +42,23 @@ for pid in sorted(props):
         })
     elif pid in CHECKS:
         kind = CHECKS[pid]
+        dirb = ""
+        tech_b = ""
+        if kind in ("managed", "unmanaged"):
+            tr = "ManagedTrace.tla" if kind == "managed" else "UnmanagedTrace.tla"
+            dirb = (" In the other direction, seeded random schedules (more tasks and far more operations than TLC exhausts) are driven on "
+                    "the real pool by the same scheduler; the recorded trace is validated by TLC against spec/%s (every event must be the "
+                    "named action of the specification AND end in exactly the logged state; all invariants of the specification are "
+                    "evaluated on the observed behaviour), and the observation log goes through the same monitor." % tr)
+            tech_b = "; trace validation of seeded random executions of the real pool against %s" % tr
+        if pid in ("C01", "C02"):
+            dirb += (" Thorough tier: Apalache discharges the inductive invariant of the counter abstraction ManagedCounting.tla (any number of "
+                     "tasks, any max_size) and TLC checks that ManagedPool.tla refines it" + ("; liveness of waiting get() under fairness." if pid == "C02" else "."))
+        if pid == "C05":
+            dirb += (" Thorough tier: Apalache discharges the inductive invariant of UnmanagedCounting.tla and TLC checks the refinement; "
+                     "liveness of waiting get() / add() under fairness (quick and thorough).")
+        if pid == "C09":
+            dirb += " One configuration drives the deadpool-postgres manager (PgManager.tla), whose statement-cache registry relies on detach."
         checks.append({
             "property_id": pid,
             "quick_cmd": "./check %s --tier quick" % pid,
@@ -50,11 +67,11 @@ for pid in sorted(props):
             "replay_cmd_template": "./check replay {path}",
             "engine": "tlc+replay",
             "level_claimed": {"category": "model_checking",
-                              "text": TEXT % {"managed": "ManagedObs.tla", "unmanaged": "UnmanagedObs.tla", "sync": "SyncObs.tla", "syncmgr": "SyncMgrObs.tla", "redismgr": "RedisObs.tla", "pgmgr": "PgObs.tla"}[kind],
+                              "text": TEXT % {"managed": "ManagedObs.tla", "unmanaged": "UnmanagedObs.tla", "sync": "SyncObs.tla", "syncmgr": "SyncMgrObs.tla", "redismgr": "RedisObs.tla", "pgmgr": "PgObs.tla"}[kind] + dirb,
                               "design_ref": "DESIGN.md section 7 (%s), sections 4-5" % pid},
             "level_note": MANAGED_NOTE,
             "technique": "explicit TLA+ spec (%s) model-checked with TLC; transition-tour replay on the real code with state comparison; TLC observation monitor"
-                         % {"managed": "ManagedPool.tla", "unmanaged": "UnmanagedPool.tla", "sync": "SyncWrapper.tla", "syncmgr": "SyncManagers.tla", "redismgr": "RedisManager.tla", "pgmgr": "PgManager.tla"}[kind],
+                         % {"managed": "ManagedPool.tla", "unmanaged": "UnmanagedPool.tla", "sync": "SyncWrapper.tla", "syncmgr": "SyncManagers.tla", "redismgr": "RedisManager.tla", "pgmgr": "PgManager.tla"}[kind] + tech_b,
         })
     elif pid in EXTRA.get("checks", {}):
         checks.append(EXTRA["checks"][pid])
@@ -73,7 +90,7 @@ m = {
          "kind_free_text": "TLA+ specs in /verif/spec checked by TLC; tools/tlcgraph.py turns TLC's state graph into a transition tour; harness/mh replays it on the real crate (one OS thread per model task, parked at cfg(deadpool_verif) schedule points); spec/*Obs.tla evaluated by TLC on the observation log"},
     ],
     "checks": checks,
-    "notes": "Exit codes: 0 held on everything explored; 1 with a VIOLATION line; 2 tool error. MODEL-DRIFT lines (exit 0) mean executions no longer conform to the specification although no property predicate was violated.",
+    "notes": "Exit codes: 0 held on everything explored; 1 with a VIOLATION line; 2 tool error. MODEL-DRIFT lines (exit 0) mean executions no longer conform to the specification although no property predicate was violated. A behaviour of the specification on which the code under test aborts the whole process is reported as VIOLATION with predicate process_abort. known_findings.json lists the 9 defects of the given tree, all repaired by fix: commits (nothing is suppressed). seeded/ holds 95 independently written changes that break a property and what detects each (DESIGN.md section 13e).",
     "not_applicable": na,
 }
 json.dump(m, open(os.path.join(ROOT, "MANIFEST.json"), "w"), indent=1)
